@@ -313,7 +313,7 @@ impl Monitor for C04 {
         Some("every total 0..=9, every split into yes/no/abstain/veto/unvoted, every AbsoluteCount weight 1..=total, 9 percentages x (alone | 9 quorums), expired and not")
     }
     fn rule(&self) -> &'static str {
-        "constructed cw3::Proposal values evaluated with is_passed / is_rejected / current_status and compared with an exact u128 cross-multiplication reference; early decisions additionally brute-forced over all completions when <= 6 votes are outstanding. Part (a) enumerates the small scope completely, part (b) is seeded random over u64 with totals {2^64-1, 2^63, 1e18, random}, tallies at requirement -1/0/+1 and thresholds with 1..18 decimals. distinct = (rule kind, expired, lib passed, lib rejected, yes==0, degenerate base, <=9 decimals?, nothing outstanding?, total > 2^32)"
+        "constructed cw3::Proposal values evaluated with is_passed / is_rejected / current_status and compared with an exact u128 cross-multiplication reference; early decisions additionally brute-forced over all completions when <= 6 votes are outstanding. Part (a) enumerates the small scope completely, part (b) is seeded random over u64 with totals {2^64-1, 2^63, 1e18, random}, tallies at requirement -1/0/+1 and thresholds with 1..18 decimals. Expiries are by height, by time on a whole second and by time with a sub-second part, the block placed in the same second just before / exactly at / after the expiry. distinct = (rule kind, expired, lib passed, lib rejected, yes==0, degenerate base, <=9 decimals?, nothing outstanding?, total > 2^32)"
     }
     fn assumptions(&self) -> Vec<&'static str> {
         vec![
